@@ -7,6 +7,7 @@ package sim
 // alarm.
 
 import (
+	"strconv"
 	"bytes"
 	"encoding/json"
 	"fmt"
@@ -272,10 +273,14 @@ func (s *Sim) checkPreControl(v *recView) {
 			okRev[r.Name] = true
 		}
 	}
+	reRead := map[string]*appsv1.ControllerRevision{} // revisions this reconcile read again, one by one
 	for _, c := range rec.Calls[:end] {
 		if c.Kind == KRev && c.Err == nil {
 			for _, o := range c.OutList {
 				noteRev(o.(*appsv1.ControllerRevision))
+			}
+			if c.Verb == "get" && c.Out != nil {
+				reRead[c.Name] = c.Out.(*appsv1.ControllerRevision)
 			}
 		}
 		switch {
@@ -296,6 +301,11 @@ func (s *Sim) checkPreControl(v *recView) {
 			if p == nil {
 				s.violate("C10", "C10.foreign-touched", "patch-uncached-pod", fmt.Sprintf("patch on pod %s that was not in the cache listing", c.Name))
 				continue
+			}
+			if pre, ok := c.Pre.(*v1.Pod); ok && pre != nil && c.Applied && pre.UID != p.UID {
+				// the decision was made about the cached pod; the name has since passed to
+				// another object
+				s.violate("C10", "C10.foreign-touched", "patch-on-recreated-pod", fmt.Sprintf("patch decided for pod %s (uid %s) was applied to another pod of that name (uid %s)", c.Name, p.UID, pre.UID))
 			}
 			ref := controllerOf(p)
 			// "its name is S-<ordinal>": the digits must be an ordinal (an int32, as
@@ -357,8 +367,15 @@ func (s *Sim) checkPreControl(v *recView) {
 			} else {
 				s.violate("C10", "C10.foreign-touched", "revision-unlisted-"+c.Verb, fmt.Sprintf("%s on revision %s which this reconcile never listed", c.Verb, c.Name))
 			}
+			// a revision the reconcile has just read again and found in other hands
+			if rr := reRead[c.Name]; rr != nil {
+				if r := controllerOf(rr); r != nil && r.UID != cs.UID {
+					s.violate("C10", "C10.foreign-touched", "revision-"+c.Verb+"-after-reread", fmt.Sprintf("%s on revision %s although the reconcile's own re-read showed it controlled by %s %s", c.Verb, c.Name, r.Kind, r.UID))
+				}
+			}
 			if c.Err == nil && c.Out != nil {
 				noteRev(c.Out.(*appsv1.ControllerRevision))
+				delete(reRead, c.Name)
 			}
 			if deletingNow {
 				how := "-after-fresh-read"
@@ -500,6 +517,10 @@ func (s *Sim) checkPodActions(v *recView) {
 			case p == nil:
 				a.class = "unjustified"
 				s.violate("C03", "C03.delete-unjustified", "not-claimed", fmt.Sprintf("deleted pod %s which is not among the claimed pods", c.Name))
+				if v.ordered && len(K) > 0 {
+					// the pass had a pod of its own to scale in and took down something else
+					s.violate("C05", "C05.scale-in-order", "not-own-pod", fmt.Sprintf("deleted pod %s, which this reconcile of %s never claimed, while its own condemned pods %v are still present", c.Name, set.Name, podNames(mapVals(K))))
+				}
 			case !ok || parent != set.Name:
 				a.class = "unjustified"
 				s.violate("C03", "C03.delete-unjustified", "bad-name", fmt.Sprintf("deleted pod %s whose ordinal cannot be read", c.Name))
@@ -642,7 +663,13 @@ func (s *Sim) checkPodActions(v *recView) {
 	// ---- C14 Parallel completeness ("absent API errors": a reconcile in which no
 	// call and no cache lookup failed owes every creation and deletion, whether or
 	// not it reports an error of its own making)
-	if !v.ordered && !v.deleting && !v.anyFail && len(rec.ListerFaults) == 0 && !rec.Crashed && rec.CtlDone {
+	failedBeforeStatus := false // the status write comes after every pod action: its failure excuses none
+	for _, c := range rec.Calls {
+		if c.Err != nil && !(c.Kind == KSet && c.Sub == "status") {
+			failedBeforeStatus = true
+		}
+	}
+	if !v.ordered && !v.deleting && !failedBeforeStatus && len(rec.ListerFaults) == 0 && !rec.Crashed && rec.CtlDone {
 		if rec.CtlErr != nil {
 			s.count("probe.parallel_error_without_failed_call")
 		}
@@ -682,6 +709,22 @@ func (s *Sim) checkPodActions(v *recView) {
 }
 
 func keysOf(m map[int32]bool) []int32 { return sortedOrdinals(m) }
+
+func rvInt(rv string) int {
+	n, err := strconv.Atoi(rv)
+	if err != nil {
+		return 0
+	}
+	return n
+}
+
+func mapVals(m map[int32]*v1.Pod) []*v1.Pod {
+	var out []*v1.Pod
+	for _, p := range m {
+		out = append(out, p)
+	}
+	return out
+}
 
 // outdated: a pod label counts as outdated if it differs from *some* revision
 // holding the current template. When several equal-content revisions exist the
@@ -735,6 +778,18 @@ func (s *Sim) checkCreatedRevision(v *recView, c *APICall, ord int32) {
 		s.count("probe.created_below_partition")
 		if _, listed := v.listedN[cur]; listed && cur != "" && label != cur {
 			s.violate("C07", "C07.created-revision", "below-partition", fmt.Sprintf("pod %s (ordinal %d < partition %d) created from revision %s, current revision is %s", pod.Name, ord, v.part, label, cur))
+		}
+		// the status may have been moved by a write that was not entitled to: the
+		// reference model's current revision is what pods below the partition keep
+		// (only for a reconcile whose cached set is at least as new as the write the
+		// model last followed: an older view is merely stale)
+		if mc := s.oracles.modelCur[string(v.set.UID)]; mc != "" && cur != "" && mc != cur && label != mc &&
+			rvInt(v.set.ResourceVersion) >= s.oracles.modelCurRV[string(v.set.UID)] {
+			if r := v.listedFirst[mc]; r != nil {
+				if ref := controllerOf(r); ref != nil && ref.UID == v.set.UID {
+					s.violate("C07", "C07.created-revision", "below-partition-after-unentitled-move", fmt.Sprintf("pod %s (ordinal %d < partition %d) created from revision %s; status.currentRevision says %s only because an earlier status write moved it without every pod being updated and Ready, the revision the held-back pods run is %s", pod.Name, ord, v.part, label, cur, mc))
+				}
+			}
 		}
 	}
 }
@@ -855,6 +910,18 @@ func (s *Sim) checkClaimsAndIdentity(v *recView) {
 			}
 		}
 	}
+}
+
+// sameRepair: two pod writes carry the same identity and storage (the things a
+// pod update of the controller exists to repair).
+func sameRepair(a, b Obj) bool {
+	pa, ok1 := a.(*v1.Pod)
+	pb, ok2 := b.(*v1.Pod)
+	if !ok1 || !ok2 || pa == nil || pb == nil {
+		return true
+	}
+	return pa.Labels[lblPodName] == pb.Labels[lblPodName] && pa.Spec.Hostname == pb.Spec.Hostname &&
+		pa.Spec.Subdomain == pb.Spec.Subdomain && claimVolumes(pa) == claimVolumes(pb)
 }
 
 // claimVolumes renders the claim-backed volumes of a pod (name=claim, in order).
@@ -986,6 +1053,7 @@ func (s *Sim) checkStatusWrites(v *recView) {
 		}
 		old := set.Status.CurrentRevision
 		known := false
+		unentitled := false
 		if r := v.listedFirst[old]; r != nil && old != "" {
 			// "names an existing revision": one of this set's history (a same-named
 			// revision still owned by a previous incarnation of the set is not)
@@ -1008,6 +1076,16 @@ func (s *Sim) checkStatusWrites(v *recView) {
 			}
 			if !ok {
 				s.violate("C12", "C12.current-revision", strings.SplitN(why, " ", 2)[0], fmt.Sprintf("currentRevision of %s changed %s -> %s although %s", set.Name, old, st.CurrentRevision, why))
+				unentitled = true
+			}
+		}
+		// reference model of the current revision (oracleState.modelCur): it follows
+		// every applied status write except a move the rule above rejects
+		if c.Applied && !unentitled {
+			uid := string(set.UID)
+			s.oracles.modelCur[uid] = st.CurrentRevision
+			if c.Out != nil {
+				s.oracles.modelCurRV[uid] = rvInt(c.Out.GetResourceVersion())
 			}
 		}
 	}
@@ -1294,6 +1372,11 @@ func (s *Sim) checkSwallowed(v *recView) {
 		for _, d := range rec.Calls[i+1:] {
 			if d.Verb == c.Verb && d.Kind == c.Kind && d.Sub == c.Sub && d.Name == c.Name && d.Err == nil {
 				excused = true // internal retry succeeded
+				if c.Kind == KPod && c.Verb == "update" && !sameRepair(c.In, d.In) {
+					// the write that went through is not the repair that failed: the
+					// failure is still unanswered
+					excused = false
+				}
 			}
 		}
 		switch {
